@@ -26,11 +26,11 @@ pub fn gamma() -> Gamma {
 fn run(r: &mut Run) -> Result<(), MachineryError> {
     let g = gamma();
     let t = r.tier;
-    text_space(r, "C01/small", &[L, SP, HY, NL, W, CM, OP, CSI], t.pick(4, 6), &g, M_C01, WidthMode::Display, 4)?;
+    text_space(r, "C01/small", &[L, SP, HY, NL, W, CM, OP, CSI], t.pick(4, 7), &g, M_C01, WidthMode::Display, 4)?;
     text_space(r, "C01/malformed-escapes", &[L, SP, W, ESC, LBR, RBR, LM, NL], t.pick(4, 6), &g, M_C01, WidthMode::Display, 4)?;
-    text_space(r, "C01/tokens", &[L, LL, LLL, SP, SP2, HY, NL, W, E2], t.pick(3, 5), &g, M_C01, WidthMode::Display, 3)?;
-    text_space(r, "C01/rich", &[L, SP, HY, TAB, ZW, NB, OP, CL, EM, E2, NL, D], t.pick(3, 4), &g, M_C01, WidthMode::Display, 3)?;
-    text_space(r, "C01/sequences-with-hyphens", &[L, SP, HY, OSH, CSI, NL, D], t.pick(4, 5), &g, M_C01, WidthMode::Display, 3)?;
+    text_space(r, "C01/tokens", &[L, LL, LLL, SP, SP2, HY, NL, W, E2], t.pick(3, 6), &g, M_C01, WidthMode::Display, 3)?;
+    text_space(r, "C01/rich", &[L, SP, HY, TAB, ZW, NB, OP, CL, EM, E2, NL, D], t.pick(3, 5), &g, M_C01, WidthMode::Display, 3)?;
+    text_space(r, "C01/sequences-with-hyphens", &[L, SP, HY, OSH, CSI, NL, D], t.pick(4, 6), &g, M_C01, WidthMode::Display, 3)?;
     char_context_space(r, "C01/all-characters-in-context", M_C01, algs_default())?;
     escape_scan_space(r, "C01/escape-grammar-scan", M_C01, algs_default())?;
     Ok(())
